@@ -195,7 +195,20 @@ pub fn c18(ctx: &mut Ctx, acc: &mut Acc) -> i32 {
                 let s = *rng.pick(&all);
                 let ty = s.ty();
                 let idx = rng.below(1 << 20);
-                match rng.below(5) {
+                match rng.below(6) {
+                    5 => {
+                        // an encode that fails late: the fields are already in their chunk buffers when the evolution header
+                        // turns out to reference an unknown field — nothing of it may survive into later calls either
+                        if let Some(b) = ctx.reg.get("BadEvolution") {
+                            let v = gen_val(&b.ty(), &mut rng, &ctx.gen);
+                            let x = b.make(&v);
+                            match enc(b, x.as_ref(), Sink::ToByteVec) {
+                                Call::Err(e) if e.variant == "UnknownFieldReferenceInEvolutionStep" => acc.count("late_failing_encodes_in_histories"),
+                                other => bad.lock().unwrap().push(Bad { what: format!("call history: BadEvolution encode gave {}", other.class()), subject: "BadEvolution".into(), value: v.render(100) }),
+                            }
+                            calls += 1;
+                        }
+                    }
                     4 => {
                         // an encode that may fail half-way (astral character, transient constructor deep inside a value):
                         // nothing of it may survive into later calls
